@@ -123,6 +123,10 @@ fn marshal_header(
         marshal_header_unix_fds(byteorder, msg.body.get_fds().len() as u32, buf)?;
     }
     let len = buf.len() - pos - 4; // -4 the bytes for the length indicator do not count
+    if len > crate::wire::unmarshal::MAX_ARRAY_LEN {
+        // the header fields are an array and may not be longer than any other array
+        return Err(crate::wire::errors::MarshalError::MessageTooLong);
+    }
     insert_u32(byteorder, len as u32, &mut buf[pos..pos + 4]);
 
     Ok(())
